@@ -1201,10 +1201,15 @@ func symbolicBase(off *Term) bool {
 func (x *Exec) callUninterp(st *State, fi *FuncInfo, args []Val, resT types.Type) Val {
 	var ua []*Term
 	rel := map[string]*Term{} // position parameter -> offset of the slice it is relative to
+	var endArg *Term
 	if len(fi.C.RelPos) > 1 {
 		for i, n := range fi.PNames {
 			if n == fi.C.RelPos[0] {
 				for _, pn := range fi.C.RelPos[1:] {
+					if pn == "+len" {
+						endArg = BVAdd(args[i].C[1], args[i].C[2])
+						continue
+					}
 					rel[pn] = args[i].C[1]
 				}
 			}
@@ -1237,6 +1242,9 @@ func (x *Exec) callUninterp(st *State, fi *FuncInfo, args []Val, resT types.Type
 		default:
 			ua = append(ua, a.C...)
 		}
+	}
+	if endArg != nil {
+		ua = append(ua, endArg)
 	}
 	ss := cellsOf(resT)
 	res := Val{C: make([]*Term, len(ss))}
